@@ -16,7 +16,7 @@ for d in sorted(glob.glob('/verif/seeded/C*/')):
 out = ["# Seeded changes and which checks catch them", "",
        "Every entry is a change to hohav/peppi written by a fresh sub-agent that was given only the property text and its own",
        "scratch worktree (four rounds of 20 agents x 2 changes: round 1, suffix A/B: statement + quantifier + why-tests-cannot; round 2, C/D:",
-       "plus the property's anchors and a request for subtler changes; round 3, E/F: changes of a different nature; round 4, G/H(/I), round 5, J/K, round 6, L/M, round 7, N/O, round 8, P/Q, round 9, R/S and round 10, T/U: plus the",
+       "plus the property's anchors and a request for subtler changes; round 3, E/F: changes of a different nature; round 4, G/H(/I), round 5, J/K, round 6, L/M, round 7, N/O, round 8, P/Q, round 9, R/S, round 10, T/U, round 11, V/W and round 12, X/Y: plus the",
        "list of ideas already used). Each was confirmed by `tools/verify_seed.sh` in a scratch worktree: the repository's 30 tests",
        "(+3 doctests) pass with the change, the sub-agent's demonstration fails with it and passes without it. The checks were run with",
        "`tools/try_seed.sh` (`git -C /repo apply`, `./check <id>`, `git -C /repo checkout -- .`). `patch.diff`, `demo.rs`, `notes.md`,",
